@@ -3,7 +3,7 @@ import math
 import numpy as np
 
 FS_CHOICES = [50, 64, 100, 128, 200, 250, 500, 1000]
-KINDS = ['sine', 'asym', 'bursty', 'noise', 'sum', 'chirp', 'quant', 'clip', 'zeroed', 'dc', 'scaled']
+KINDS = ['sine', 'asym', 'bursty', 'noise', 'sum', 'chirp', 'quant', 'clip', 'zeroed', 'dc', 'scaled', 'sparse']
 
 
 def signal(rng, kind=None, max_len=1000):
@@ -11,7 +11,7 @@ def signal(rng, kind=None, max_len=1000):
     kind = kind or rng.choice(KINDS)
     fs = rng.choice(FS_CHOICES)
     period = rng.choice([8, 10, 12, 16, 20, 25, 32])
-    ncyc = rng.randint(7, 28)
+    ncyc = rng.randint(7, 28) if kind != 'sparse' else rng.randint(24, 40)
     n = min(max_len, max(150, int(ncyc * period + rng.randint(0, period))))
     f0 = fs / period
     f_range = (round(0.7 * f0, 6), round(1.4 * f0, 6))
@@ -39,6 +39,14 @@ def signal(rng, kind=None, max_len=1000):
             gate[i:i + ln] = 1
             i += ln + rng.choice([1, 2, 4]) * period
         sig = base * gate + 0.25 * pink() + 0.05 * nrng.standard_normal(n)
+    elif kind == 'sparse':
+        gate = np.zeros(n)
+        i = rng.randint(2, 6) * period
+        while i < n:
+            ln = rng.choice([4, 5, 6, 8]) * period
+            gate[i:i + ln] = 1
+            i += ln + rng.choice([7, 9, 12]) * period
+        sig = base * (0.08 + gate) + 0.05 * pink() + 0.02 * nrng.standard_normal(n)
     elif kind == 'noise':
         sig = pink() + 0.2 * nrng.standard_normal(n)
     elif kind == 'sum':
